@@ -8,8 +8,11 @@ import (
 	"math/rand"
 	"strings"
 
+	tenvelope "go.uber.org/thriftrw/envelope"
+	"go.uber.org/thriftrw/protocol"
 	"go.uber.org/thriftrw/protocol/binary"
 	"go.uber.org/thriftrw/protocol/stream"
+	"go.uber.org/thriftrw/verifhook"
 	"go.uber.org/thriftrw/wire"
 	"verifharness/internal/sx"
 	"verifharness/internal/wj"
@@ -64,6 +67,74 @@ func responderInfo(r interface{}, o wj.J) {
 
 var replyBody = wire.NewValueStruct(wire.Struct{Fields: []wire.Field{{ID: 0, Value: wire.NewValueI32(42)}}})
 
+// the client and the plugin-side server of the envelope layer
+type cannedTransport struct {
+	res  []byte
+	sent []byte
+}
+
+func (t *cannedTransport) Send(b []byte) ([]byte, error) {
+	t.sent = append([]byte(nil), b...)
+	return t.res, nil
+}
+
+type fixedHandler struct{ fail bool }
+
+func (h fixedHandler) Handle(name string, body wire.Value) (wire.Value, error) {
+	if h.fail {
+		return wire.Value{}, fmt.Errorf("handler failed")
+	}
+	return replyBody, nil
+}
+
+func replyClass(err error) string {
+	if err == nil {
+		return "none"
+	}
+	if strings.Contains(fmt.Sprintf("%T", err), "TApplicationException") {
+		return "appexc"
+	}
+	return "err"
+}
+
+func clientSide(o wj.J, req []byte) {
+	rr := wj.J{"ec": "unset", "seq": 0, "body": nilV}
+	o["rr"] = rr
+	v, seq, err := tenvelope.ReadReply(protocol.Binary, bytes.NewReader(req))
+	rr["ec"], rr["seq"] = replyClass(err), int(seq)
+	if err == nil {
+		if fv, ferr := wj.Force(v); ferr == nil {
+			rr["body"] = wj.ToJSON(fv)
+		} else {
+			rr["ec"] = "lazy-err"
+		}
+	}
+	ic := wj.J{"ec": "unset", "sent": []int{}, "body": nilV}
+	o["ic"] = ic
+	tr := &cannedTransport{res: req}
+	v, err = verifhook.NewEnvelopeClient(protocol.Binary, tr).Send("m", replyBody)
+	ic["ec"], ic["sent"] = replyClass(err), wj.Bytes(tr.sent)
+	if err == nil {
+		if fv, ferr := wj.Force(v); ferr == nil {
+			ic["body"] = wj.ToJSON(fv)
+		} else {
+			ic["ec"] = "lazy-err"
+		}
+	}
+	for _, fail := range []bool{false, true} {
+		is := wj.J{"ok": false, "reply": []int{}}
+		res, err := verifhook.NewEnvelopeServer(protocol.Binary, fixedHandler{fail: fail}).Handle(req)
+		if err == nil {
+			is["ok"], is["reply"] = true, wj.Bytes(res)
+		}
+		if fail {
+			o["isf"] = is
+		} else {
+			o["is"] = is
+		}
+	}
+}
+
 func c12Observe(id string, env wj.J, intact bool, req []byte, et wire.EnvelopeType, seed int64) wj.J {
 	o := wj.J{"op": "c12", "id": id, "intact": intact, "req": wj.Bytes(req), "et": int(et), "panic": ""}
 	if env != nil {
@@ -103,6 +174,7 @@ func c12Observe(id string, env wj.J, intact bool, req []byte, et wire.EnvelopeTy
 			}
 			r.Close()
 		}
+		clientSide(o, req)
 		// random-access request API
 		ra := o["ra"].(wj.J)
 		val, resp, err := binary.Default.DecodeRequest(et, bytes.NewReader(req))
